@@ -62,7 +62,10 @@ func (c *Client) Produce(args ProduceArgs) (enc.Name, error) {
 	}
 
 	// TODO: sign the data
-	basename := append(args.Name, enc.NewVersionComponent(version))
+	// never append into spare capacity of the caller's slice: the metadata
+	// name built below would overwrite the version component of basename
+	objName := args.Name[:len(args.Name):len(args.Name)]
+	basename := append(objName, enc.NewVersionComponent(version))
 	signer := sec.NewSha256Signer()
 
 	// use a transaction to ensure the entire object is written
@@ -107,7 +110,7 @@ func (c *Client) Produce(args ProduceArgs) (enc.Name, error) {
 	}
 
 	{ // write metadata packet
-		name := append(args.Name,
+		name := append(objName,
 			enc.NewStringComponent(enc.TypeKeywordNameComponent, "metadata"),
 			enc.NewVersionComponent(version),
 			enc.NewSegmentComponent(0),
